@@ -211,7 +211,10 @@ func (p *Program) encodeUnit(c *Contract) *UnitResult {
 			e.oblige("post", fmt.Sprintf("%s#post[%s]", c.Key(), lab), lab, reach, goal, en.Line)
 		}
 		// frame
-		if c.HasMod {
+		if c.HasMod && c.AssumeFrame {
+			e.note("frame of %s is assumed, not proved (assumeframe)", c.Key())
+		}
+		if c.HasMod && !c.AssumeFrame {
 			var names []string
 			for n := range stF.h {
 				names = append(names, n)
